@@ -451,6 +451,14 @@ func (m *machine) Step(op Op) error {
 		cnt := len(n.elems)
 		s := op.A%(cnt+4) - 1
 		e := op.B%(2*cnt+5) - cnt - 2
+		switch op.U % 5 {
+		case 1: // a suffix, spelled with end 0 ...
+			s, e = op.A%(cnt+1), 0
+		case 2: // ... or with end n
+			s, e = op.A%(cnt+1), cnt
+		case 3: // a prefix
+			s = 0
+		}
 		bad := e > cnt || e < -cnt
 		ee := e
 		if !bad {
@@ -961,6 +969,53 @@ func (m *machine) Step(op Op) error {
 		}
 		m.st.Count("bigunset")
 
+	case "unsetmany":
+		// removes all but 0-7 fields of a live object (of the biggest one in half of the cases): one Unset call
+		// naming every key, one call per key, or every field overwritten with nil first
+		n := m.object(op.T)
+		if op.U%2 == 0 {
+			for _, o := range h.objects {
+				if len(o.fields) > len(n.fields) {
+					n = o
+				}
+			}
+		}
+		ks := sortedFieldKeys(n)
+		keep := op.A % 8
+		if len(ks) <= keep {
+			return nil
+		}
+		start := op.B % len(ks)
+		var gone []string
+		for i := 0; i < len(ks)-keep; i++ {
+			gone = append(gone, ks[(start+i)%len(ks)])
+		}
+		o := n.impl.(at.Object)
+		if err := m.expectPanic(fmt.Sprintf("Unset of %d of %d fields", len(gone), len(ks)), false, func() {
+			switch op.Flavor % 3 {
+			case 0:
+				o.Unset(gone...)
+			case 1:
+				for _, k := range gone {
+					o.Unset(k)
+				}
+			default:
+				for _, k := range gone {
+					o.Set(k, nil)
+				}
+				o.Unset(gone...)
+			}
+		}); err != nil {
+			return err
+		}
+		fields := cloneFields(n.fields)
+		for _, k := range gone {
+			delete(fields, k)
+		}
+		n.fields = fields
+		m.noteMutation(n)
+		m.st.Count(fmt.Sprintf("unsetmany>=%d", []int{0, 64, 256}[b2i(len(gone) >= 64)+b2i(len(gone) >= 256)]))
+
 	case "ocontains":
 		n := m.object(op.T)
 		if len(op.Vals) == 0 {
@@ -1016,7 +1071,7 @@ func (m *machine) Step(op Op) error {
 	return nil
 }
 
-var bulkSizes = []int{63, 64, 65, 127, 128, 129, 255, 256, 257, 511, 513, 1023, 1024, 1025, 2049, 4097}
+var bulkSizes = []int{63, 64, 65, 127, 128, 129, 255, 256, 257, 511, 513, 1023, 1024, 1025, 2049, 4097, 4099}
 var bigsetSizes = []int{65, 100, 129, 200, 257, 300}
 
 const bulkCap = 9000
@@ -1050,6 +1105,13 @@ func bulkVals(k, seed int) []mval {
 		}
 	}
 	return out
+}
+
+func b2i(b bool) int {
+	if b {
+		return 1
+	}
+	return 0
 }
 
 func (m *machine) maxListLen() int {
@@ -1196,8 +1258,8 @@ func genRawSlice(t *rapid.T, lo, hi int) []int {
 var listOpNames = []string{"addmany", "add", "insert", "replace", "delete", "deletemulti", "pop", "clear", "reverse", "sort", "sublist", "concat", "getters", "contains", "newlist", "newlistof", "newlistfrom", "sortrun", "bulk"}
 var listOpWeights = []int{6, 22, 10, 7, 6, 3, 5, 1, 4, 5, 9, 9, 5, 6, 4, 2, 4, 4, 1}
 
-var objectOpNames = []string{"set", "unset", "oclear", "merge", "pluck", "ogetters", "ocontains", "newobject", "newobjectfrom", "bigunset", "bigset"}
-var objectOpWeights = []int{24, 9, 1, 10, 9, 8, 8, 6, 5, 1, 1}
+var objectOpNames = []string{"set", "unset", "oclear", "merge", "pluck", "ogetters", "ocontains", "newobject", "newobjectfrom", "bigunset", "bigset", "unsetmany"}
+var objectOpWeights = []int{24, 9, 1, 10, 9, 8, 8, 6, 5, 1, 1, 2}
 
 func genListOp(t *rapid.T) Op {
 	name := listOpNames[pick(t, "lop", listOpWeights...)]
@@ -1313,6 +1375,8 @@ func genObjectOp(t *rapid.T) Op {
 		op.Keys = genKeys(t, 1)
 	case "ocontains":
 		op.Vals = genVals(t, 1, 1, 3)
+	case "unsetmany":
+		op.Flavor = drawInt(t, 0, 2, "flavor")
 	case "bigset":
 		op.Flavor = drawInt(t, 0, 2, "flavor")
 		if !oneIn(t, 3, "bigset") {
